@@ -80,9 +80,9 @@ def validate_cases(module, trace, env, shards=None, timeout=3000, cfg_text="SPEC
 
 
 def find_event(part, ep):
-    tag = '"ep":%s' % json.dumps(ep)
+    tags = ('"ep":%s' % json.dumps(ep), '"ep": %s' % json.dumps(ep))
     for l in open(part):
-        if tag in l:
+        if tags[0] in l or tags[1] in l:
             return json.loads(l)
     return None
 
